@@ -118,6 +118,9 @@ func checkFrame(f *gen.ProgFunc, cl *stack.Call) string {
 		return "no typed rendering although the matching source is available"
 	}
 	for i, e := range want {
+		if e.pp.Unsupported {
+			break // a kind outside the property's list: everything from here on is "no crash" only
+		}
 		if e.first+e.pp.Words > shown {
 			break // beyond what the runtime printed: not shown, never wrong
 		}
